@@ -102,7 +102,7 @@ def _known_findings(pid):
 def _replay_file(mod, path, known):
     data = json.load(open(path))
     case = data["case"] if isinstance(data, dict) and "case" in data else data
-    res = mod.check_case(case)
+    res = core.safe_check(mod.ID, mod.check_case, case)
     new, hit = [], []
     km = getattr(mod, "known_match", None)
     for v in res.violations:
